@@ -42,6 +42,11 @@ func (rt *Transfer) deleteFiles(fileList []*File) error {
 			}
 			rt.Logger.Printf("WalkDir(%q)", path)
 			if findInFileList(fileList, path) {
+				if info.IsDir() && path != "." && !rt.Opts.Recurse {
+					// --dirs without --recursive: the contents of this
+					// directory were not transferred, so leave them alone.
+					return fs.SkipDir
+				}
 				return nil
 			}
 			if rt.Excluded != nil && rt.Excluded(path, info.IsDir()) {
